@@ -268,6 +268,7 @@ FAMS = ['cubic', 'hexagonal', 'tetragonal', 'rhombohedral', 'orthorhombic', 'mon
 def h_family(fam):
     def fn():
         from atomman import Box
+        if sx.symbolic_mode() and fam in ('rhombohedral', 'triclinic'): sx.ctx().opaque_congruence = True      # alpha, beta, gamma are arccos of different terms
         a = var('a', 1, 100); b = var('b', 1, 100); c = var('c', 1, 100)
         if sx.symbolic_mode():
             # generic, non-coincident lengths (one ordering; 1% apart, well beyond the 1e-5 relative tolerance)
